@@ -17,6 +17,10 @@ BINARIES['dir'] = dict(objs=[O('dir_engine.cpp', True)], libs=D.ENGINE_LIBS)
 
 BINARIES['model'] = dict(objs=[O('model_engine.cpp', True)], libs=D.ENGINE_LIBS)
 
+BINARIES['dims'] = dict(objs=[O('dims_engine.cpp', True)], libs=D.ENGINE_LIBS)
+
+BINARIES['enums'] = dict(objs=[O('enum_engine.cpp', True)], libs=D.ENGINE_LIBS)
+
 PLANS = {}
 def plan(name):
     def deco(fn): PLANS[name] = fn; return fn
@@ -38,6 +42,26 @@ def engine_step(run, binary, filters, need_factors=False, flavour='n', scale=Non
         else:
             env['VERIF_FACTORS'] = D.factors_file(exes['introspect'])
     D.run_engine(run, binary, exes[binary], filters, flavour=flavour, scale=scale, extra_env=env)
+
+def engine_step_sharded(run, binary, filters, nshards, flavour='n'):
+    """the same engine run split over nshards processes (instances i with i % nshards == shard)"""
+    import concurrent.futures as cf, threading
+    exes = D.build_or_violation(run, [binary], flavour)
+    if not exes: return
+    lock = threading.Lock()
+    def one(k):
+        sub = D.Run(run.prop, run.tier)
+        D.run_engine(sub, binary, exes[binary], filters, flavour=flavour, extra_env={'VERIF_SHARD': '%d/%d' % (k, nshards)}, tag='.s%d' % k)
+        return sub
+    with cf.ThreadPoolExecutor(max_workers=nshards) as ex:
+        for sub in ex.map(one, range(nshards)):
+            run.evaluations += sub.evaluations; run.nontrivial += sub.nontrivial
+            for k, v in sub.classes.items(): run.classes[k] = run.classes.get(k, 0) + v
+            for k, v in sub.per_check.items():
+                if k in run.per_check:
+                    run.per_check[k] = dict(evaluations=run.per_check[k]['evaluations'] + v['evaluations'], distinct_nontrivial=run.per_check[k]['distinct_nontrivial'] + v['distinct_nontrivial'])
+                else: run.per_check[k] = v
+            run.rules.update(sub.rules); run.samples += sub.samples[:3]; run.notes += sub.notes; run.fails += sub.fails
 
 LEXICON = 'the unit lexicon of DESIGN.md Appendix A (SI brochure, NIST SP 811, 1959 yard-pound agreement)'
 
@@ -78,16 +102,26 @@ def c12(run):
 def c13(run):
     engine_step(run, 'model', ['C13'])
 
+@plan('C18')
+def c18(run):
+    engine_step(run, 'rel', ['C18'])
+
 @plan('C14')
 def c14(run):
     engine_step(run, 'qty', ['C14'])
     engine_step(run, 'math', ['C14'])
     engine_step(run, 'model', ['C14'])
+    engine_step(run, 'dims', ['C14'])
     run.assumptions += ['no NaN components (the statement is about non-NaN values)']
 
 @plan('C15')
 def c15(run):
-    engine_step(run, 'qty', ['C15'])
+    if run.tier == 'quick':
+        engine_step(run, 'qty', ['c15.composite', 'c15.numbers', 'c15.float_sweep'])
+    else:
+        engine_step(run, 'qty', ['c15.composite', 'c15.numbers'])
+        engine_step_sharded(run, 'qty', ['c15.float_all'], 16)   # all 2^32 float bit patterns
+    run.assumptions += ['finite normal numbers only (the statement excludes subnormals, infinities and NaN)']
 
 @plan('C16')
 def c16(run):
@@ -118,6 +152,7 @@ def c05(run):
 def c06(run):
     exes = D.build_or_violation(run, ['introspect'])
     if exes: D.run_symx(run, 'C06', exes['introspect'])
+    engine_step(run, 'dims', ['C06'])
     run.rules['symx.C06'] = ('exhaustive: every unit symbol of every unit type is expanded into the seven base dimensions with the lexicon (Appendix A) and compared '
                              'with RelatedDimensions<U> as reported at run time; every quantity type reports the dimension set of its unit type in all three numeric types; '
                              'distinct = (unit | quantity, numeric type) item')
@@ -135,6 +170,7 @@ def c07(run):
 def c08(run):
     exes = D.build_or_violation(run, ['introspect'])
     if exes: D.run_symx(run, 'C08', exes['introspect'])
+    engine_step(run, 'enums', ['C08'])
     run.rules['symx.C08'] = ('exhaustive: every enumerator of the 39 declarations (names read from the enum declarations) has a unique abbreviation, streams as it, parses back, has both conversion rows; '
                              'every key of the live spelling tables parsed through ParseEnumeration denotes (lexicon, exact) the magnitude of the enumerator it parses to; non-trivial = spelling differs from the abbreviation')
     run.assumptions += ['the unit lexicon of DESIGN.md Appendix A']
